@@ -20,7 +20,10 @@ RULE = ("Hypothesis draws a logical file (C01 generator; plus DAQmx and scaled f
         "read_data(), iteration, [i] for every i, raw_data, read_data(scaled=False); lazy [:], [...], read_data(), "
         "iteration, [i], channel.data_chunks() and TdmsFile.data_chunks() concatenations with their offsets) is "
         "compared with the model. Non-trivial: some channel's data spreads over >=2 chunks or segments (>=4 access "
-        "paths are always compared); distinct by SHA-1 of the case.")
+        "paths are always compared); distinct by SHA-1 of the case."
+        ' A further job gives a NON-final segment an incomplete last chunk (lead-in states the shortened size) and '
+        'demands, without a content model, that eager / lazy full reads, windows, integer indices and both chunk '
+        'streams agree with one another.')
 ASSUMPTIONS = [
     "independent encoder vf/encode.py",
     "paths documented as unavailable in a mode (.data on a lazily opened non-empty channel, data_chunks() after an "
